@@ -121,6 +121,7 @@ def main(inp, outp):
             res["samples"].append({"station": data, "axes_north": ax["north"].tolist()})
     # ---- horizon mask -------------------------------------------------------------------------------------------------
     masks = {}
+    shared = None          # ONE station object that is given the tables one after the other (a new mask replaces the old one)
     for v in job.get("mask", []):
         key = json.dumps(v["tab"])
         if key not in masks:
@@ -135,6 +136,16 @@ def main(inp, outp):
             got = float(sta.get_mask(q))
         except Exception as e:
             got = float("nan")
+        if shared is None:
+            shared = create_station("VfMShared", (10.0, 20.0, 0.0), mask=[[math.pi, 2 * math.pi], [0.1, 0.2]])
+            shared.get_mask(1.0)
+        shared.mask = np.array([[t[0] * math.pi / 12 for t in v["tab"]], [math.radians(t[1]) for t in v["tab"]]])
+        try:
+            got2 = float(shared.get_mask(q))
+        except Exception:
+            got2 = float("nan")
+        clause("a station given a new mask table answers with the new table", abs(got2 - want) <= 1e-9, "topo/mask-replaced",
+               f"after station.mask = table {v['tab']}: azimuth {v['qz']} x pi/24 gives {got2} expected {want}", {"table": v["tab"], "azimuth_pi_over_24": v["qz"]})
         clause("the mask value at any azimuth is the piecewise-linear interpolation of the table (2 pi value also at 0)",
                abs(got - want) <= 1e-9, "topo/mask", f"table {v['tab']} azimuth {v['qz']} x pi/24: {got} expected {want}", {"table": v["tab"], "azimuth_pi_over_24": v["qz"]})
     res["nontrivial"] = sorted(set(res["nontrivial"]))[:300] + [f"mask{len(masks)}"]
